@@ -49,7 +49,7 @@ func Profile() *world.Profile {
 		PanicPm:   60, MissingPm: 40, BadStatus: 0, WFaultPm: 60, CancelPm: 60, DeadlinePm: 60, FaultFree: 400,
 		MinTasks: 2, MaxTasks: 8, MinReqs: 1, MaxReqs: 4,
 		HotPm: 300, NearPm: 150, HostilePm: 80,
-		Methods: []string{"GET", "POST", "HEAD", "BREW", "DELETE"}, MethodW: []int{10, 3, 2, 1, 1},
+		Methods: []string{"GET", "POST", "HEAD", "BREW", "DELETE", "get", "Post"}, MethodW: []int{20, 6, 4, 2, 2, 1, 1}, // (the last two: known methods in a spelling net/http lets through)
 		ExtraPm: 330,
 	}
 	p.Shapes = make([]int, 24)
@@ -170,7 +170,7 @@ func (Engine) Run(t *tape.Tape, o eng.Opts) *eng.Result {
 		if world.AutoMode {
 			p.MaxTasks = 84
 		}
-		p.MethodW = []int{30, 1, 4, 1, 1}
+		p.MethodW = []int{30, 1, 4, 1, 1, 1, 0}
 		p.HotPm, p.HotPaths, p.HotStatic = 950, 1+sw.Intn(2), true
 		p.MwCounts = []int{0, 1}
 		p.MaxActs = 1
